@@ -16,6 +16,7 @@ pub mod cert;
 pub mod schemepush;
 pub mod close;
 pub mod hostile;
+pub mod nego;
 
 pub fn run(args: &Args, log: &Log) -> Result<(), String> {
     match args.driver.as_str() {
@@ -36,6 +37,7 @@ pub fn run(args: &Args, log: &Log) -> Result<(), String> {
         "schemepush" => schemepush::run(args, log),
         "close" => close::run(args, log),
         "hostile" => hostile::run(args, log),
+        "nego" => nego::run(args, log),
         d => Err(format!("unknown driver {d}")),
     }
 }
